@@ -198,5 +198,10 @@ class PBT_on_trial_result:
         return out
 
 
+from pyvc.native import native_monitor  # noqa: E402
+
+EXTRA_CHECKS = [native_monitor("C20", "contracts.c20_native", "monitor_checkpoints", "checkpoints", "900 (thorough 3220) real Tuner runs over a scripted in-memory back end that tracks every check-point, with synchronous Hyperband (6 rung systems + geometric), DEHB (pause/resume on and off), promotion / PASHA / RUSH / cost-aware Hyperband with and without early removal call-backs, PBT and a random scripted scheduler; deletion on / off, 1..4 workers, 17 result orders inside a poll, failing and NaN trials; ghost check-point state and an independent rung model for 'can provably never be resumed'")]
+
+
 # synchronous Hyperband: a trial that reached its rung level may be promoted later, so it is PAUSED (check-point kept), never stopped
 from contracts.c05 import SyncHB_on_trial_result, I_sbm_level_to_prev_level, I_ss_on_trial_result, I_sbm_on_result  # noqa: F401,E402
